@@ -2,3 +2,4 @@
 pub mod enumstr;
 pub mod lit;
 pub mod msg;
+pub mod plan;
